@@ -302,6 +302,8 @@ def known_matcher(fnd, case):
         return clause.endswith('@nonreduced')
     if m.get('kind') == 'lalr-loop-on-priority-resolved-conflict':
         return clause.endswith('hang@automaton-loops')
+    if m.get('kind') == 'end-not-in-expected':
+        return clause.endswith('@end-through-contextual-lexer')
     return False
 
 
